@@ -1030,6 +1030,16 @@ func checkC10(c *Ctx) {
 			cur.Set(path[j], nx)
 			cur = nx
 		}
+		// the same nested object also under other keys of the root (one Go map at several places)
+		if len(path) > 1 && c.R.Chance(1, 6) {
+			if sub := obj.Get(path[0]); sub != nil && sub.K == AVObj {
+				obj.Set("aa_alias", sub)
+				if c.R.Chance(1, 2) {
+					obj.Set("zz_alias", sub)
+				}
+				c.count("with_aliased_nested_object")
+			}
+		}
 		if c.R.Chance(1, 3) {
 			addDecoys(c.R, obj, [][]string{path}, func() *AV {
 				return pick(c.R, []*AV{avInt(1), {K: AVBool, B: true}, {K: AVBool, B: false}, avStr("x"), avInt(0)})
@@ -1051,6 +1061,39 @@ func checkC10(c *Ctx) {
 		}
 		rule := lf
 		inCompound := c.R.Chance(4, 10)
+		if lf.T == NCmp && c.R.Chance(1, 6) {
+			// the comparison and its complement (or itself again) on the same attribute, joined by or / and: for a non-bool
+			// attribute `flag eq true` and `flag ne true` are BOTH false, so their disjunction is false
+			other := &Node{T: NCmp, Path: lf.Path, Op: lf.Op, Lit: lf.Lit}
+			if c.R.Chance(3, 4) {
+				other.Op = 27 - lf.Op // 13 <-> 14
+			}
+			expOther := expected
+			if other.Op != lf.Op {
+				switch {
+				case lf.Lit.Kind == "null":
+					expOther = !expected
+				default:
+					expOther = false
+					if a != nil && a.K == AVBool {
+						expOther = !expected
+					}
+				}
+			}
+			or := c.R.Chance(1, 2)
+			if c.R.Chance(1, 2) {
+				rule = &Node{T: NLogic, Or: or, L: lf, R: other}
+			} else {
+				rule = &Node{T: NLogic, Or: or, L: other, R: lf}
+			}
+			if or {
+				expected = expected || expOther
+			} else {
+				expected = expected && expOther
+			}
+			inCompound = false
+			c.count("comparison_and_its_complement_on_one_attribute")
+		}
 		if inCompound {
 			// a first operand that is true and leaves a non-nil left operand behind
 			obj.Set("zz9", avInt(1))
